@@ -351,6 +351,28 @@ theorem addTail_dem (p : Pool) (t : Tx) (isLocal loc : Bool) : Dem p (p.addTail 
         | exact h1.trans (Dem.frame rfl rfl)
         | (rename_i hf; simp at hf)
 
+theorem addRoom_ndisj {p : Pool} (h : Good Φ p) (hpq : Φ.PQ) (hn : NDisj p) (t : Tx) (isLocal loc : Bool) :
+    ∀ r ∈ p.addRoom t isLocal loc, NDisj r.1 := by
+  intro r hr
+  unfold addRoom at hr
+  simp only at hr
+  split at hr
+  · split at hr
+    · simp at hr; subst hr; exact hn
+    · split at hr
+      · simp at hr; subst hr; exact hn
+      · simp only [List.mem_map] at hr
+        obtain ⟨d, _, hd⟩ := hr
+        cases d with
+        | none => simp at hd; subst hd; exact hn
+        | some drop =>
+          simp only at hd
+          subst hd
+          have h0 : Good Φ ({ p with changes := p.changes + drop.length } : Pool) := h.frame rfl rfl rfl
+          have hd := (removeL_dem h0 hpq drop).1
+          exact (addTail_dem _ t _ loc).ndisj (hd.ndisj ((Dem.frame (p := p) rfl rfl).ndisj hn))
+  · simp at hr; subst hr; exact (addTail_dem p t _ loc).ndisj hn
+
 theorem add_ndisj {p : Pool} (h : Good Φ p) (hpq : Φ.PQ) (hn : NDisj p) (t : Tx) (loc : Bool) :
     ∀ r ∈ p.add t loc, NDisj r.1 := by
   intro r hr
@@ -361,21 +383,8 @@ theorem add_ndisj {p : Pool} (h : Good Φ p) (hpq : Φ.PQ) (hn : NDisj p) (t : T
     split at hr
     · simp at hr; subst hr; exact hn
     · split at hr
-      · split at hr
-        · simp at hr; subst hr; exact hn
-        · split at hr
-          · simp at hr; subst hr; exact hn
-          · simp only [List.mem_map] at hr
-            obtain ⟨d, _, hd⟩ := hr
-            cases d with
-            | none => simp at hd; subst hd; exact hn
-            | some drop =>
-              simp only at hd
-              subst hd
-              have h0 : Good Φ ({ p with changes := p.changes + drop.length } : Pool) := h.frame rfl rfl rfl
-              have hd := (removeL_dem h0 hpq drop).1
-              exact (addTail_dem _ t _ loc).ndisj (hd.ndisj ((Dem.frame (p := p) rfl rfl).ndisj hn))
-      · simp at hr; subst hr; exact (addTail_dem p t _ loc).ndisj hn
+      · simp at hr; subst hr; exact hn
+      · exact addRoom_ndisj h hpq hn t _ loc r hr
 
 /-! ## promotion -/
 
